@@ -48,6 +48,11 @@ def main():
     meta_path = os.path.join(dest, "meta.json")
     meta = json.load(open(meta_path)) if os.path.exists(meta_path) else {}
     meta.update(property=prop, name=slug)
+    needs_file = os.path.join(HOME, "seeded", "needs.json")
+    if os.path.exists(needs_file):
+        nd = json.load(open(needs_file)).get("%s-%s" % (prop, slug))
+        if nd:
+            meta["needs_to_manifest"] = nd
     if a.needs:
         meta["needs_to_manifest"] = a.needs
     d = tempfile.mkdtemp(prefix="vf-seed-")
